@@ -233,6 +233,7 @@ fn workbooks(rng: &mut Rng, out: &mut UnitResult, unit: u64, i: u64) {
     let mut xfs: Vec<NumFmt> = vec![];
     let n_xf = 2 + rng.usize(10);
     let mut next_id = 164u16;
+    let mut low_ids: Vec<u16> = vec![5, 6, 7, 8, 23, 24, 25, 26, 41, 42, 43, 44, 63, 64, 65, 66];
     let mut customs: Vec<NumFmt> = vec![];
     for _ in 0..n_xf {
         if rng.chance(2, 5) {
@@ -247,8 +248,16 @@ fn workbooks(rng: &mut Rng, out: &mut UnitResult, unit: u64, i: u64) {
             xfs.push(rng.pick(&customs).clone()); // two xfs sharing one custom format
         } else {
             let (code, class, _) = gen_format(rng, 6);
-            let f = NumFmt { id: next_id, code: Some(code), class };
-            next_id += 1 + rng.range(0, 3) as u16;
+            // format records may also redefine the ids the specifications reserve for
+            // locale-dependent built-ins (5-8, 23-26, 41-44, 63-66)
+            let id = if !low_ids.is_empty() && rng.chance(1, 4) {
+                out.feat("custom_format_id<164");
+                low_ids.swap_remove(rng.usize(low_ids.len()))
+            } else {
+                next_id += 1 + rng.range(0, 3) as u16;
+                next_id - 1
+            };
+            let f = NumFmt { id, code: Some(code), class };
             customs.push(f.clone());
             xfs.push(f);
         }
@@ -333,7 +342,7 @@ impl Prop for C10 {
         Some(format!("all admissible token sequences of length <= 3 over {} tokens x 3 section variants; built-in format ids 0..=400", TOKENS.len()))
     }
     fn mandatory(&self, _t: Tier) -> Vec<String> {
-        ["token_sequences<=3", "builtin_ids", "long_formats", "sampled_long_formats", "workbook:xlsx", "workbook:xlsb", "workbook:xls", "style:Date", "style:Duration", "style:Other", "date1904", "xlsb:BrtCellRk:RkInt", "xlsb:BrtCellReal", "xlsb:BrtFmlaNum", "xls:num:NUMBER", "xls:num:RK:RkInt", "xls:formula:num"]
+        ["token_sequences<=3", "builtin_ids", "long_formats", "custom_format_id<164", "sampled_long_formats", "workbook:xlsx", "workbook:xlsb", "workbook:xls", "style:Date", "style:Duration", "style:Other", "date1904", "xlsb:BrtCellRk:RkInt", "xlsb:BrtCellReal", "xlsb:BrtFmlaNum", "xls:num:NUMBER", "xls:num:RK:RkInt", "xls:formula:num"]
             .iter().map(|s| s.to_string()).collect()
     }
     fn run_unit(&self, ctx: &Ctx, unit: u64, out: &mut UnitResult) {
